@@ -84,6 +84,10 @@ def run(tier, seed, which="C06"):
     V = kv.Verdict("C06", tier, seed)
     wd = kv.workdir("c06")
     rng = random.Random(seed)
+    r0 = kv.run_tlc("MC_RoundTrip", "MC_RoundTrip_q.cfg" if tier == "quick" else "MC_RoundTrip_t.cfg", wd, workers=8, timeout=3000, heap="6g")
+    V.add_tlc(r0)
+    if not r0.ok:
+        raise kv.Broken("MC_RoundTrip: the modelled writers and readers are not inverse: %s" % r0.out[-500:])
     S = scenarios(rng, tier)
     batches = [S[i:i + 3] for i in range(0, len(S), 3)]
 
